@@ -816,7 +816,7 @@ func (c *Client) CreateSession(ctx context.Context, cfg *uasc.SessionConfig) (*S
 		err := sc.VerifySessionSignature(res.ServerCertificate, nonce, res.ServerSignature.Signature)
 		if err != nil {
 			log.Printf("error verifying session signature: %s", err)
-			return nil
+			return err
 		}
 
 		// Ensure we have a valid identity token that the server will accept before trying to activate a session
